@@ -17,7 +17,7 @@ c02_resend_rearms_06 c02_resend_rearms_07 c02_tick_step_online_06 c02_tick_step_
 c01_feed_step_online_keepalive_06 c01_feed_step_online_close_06 c01_feed_step_online_chunks_06 c01_feed_step_online_connect_06
 c01_feed_step_online_k4_06 c01_feed_step_online_k5_06 c01_feed_step_onlinenotoken_close_06 c01_feed_step_onlinenotoken_chunks_06
 c01_feed_step_onlinenotoken_k4_06 c17_tick_skip_step_wide c17_frag_read_player_diff_bytewise c11_delta_corrupt_num_deleted
-c20_reject_removes_only_that_peer
+c20_reject_removes_only_that_peer c20_needs_tick_is_earliest_peer_deadline
 """.split())
 PIN_THOROUGH = set("""
 c11_delta_corrupt_num_deleted c02_resend_rearms_06 c02_resend_rearms_07 c17_decode_prefix_console_command
